@@ -35,7 +35,7 @@ ASSUMPTIONS = [
     "even taper widths have no centre sample: for them only range, 'one beyond width/2' and 'function of the flags' "
     "are asserted, the value on flagged samples is recorded as a statistic",
 ]
-BUDGET = {"quick": 8000, "thorough": 320000}
+BUDGET = {"quick": 8000, "thorough": 200000}
 SHRINK = {"quick": True, "thorough": True}
 ENUM_NS = {"quick": 10, "thorough": 13}
 ENUM_M = {"quick": [1, 3, 5, 7, 9], "thorough": [1, 3, 5, 7, 9, 11, 13, 31]}
@@ -100,6 +100,7 @@ def _case(draw):
     else:
         case["rng_gain"] = draw(st.sampled_from(GAINS + [80]))
     case["fs"] = draw(st.sampled_from(FS))
+    case["layout"] = draw(st.sampled_from(["C", "T"]))
     case["ratio"] = draw(st.sampled_from([3.92, 3.92, 4.0, 5.5, 8.0]))
     # proportion
     pmodes = ["between", "decimal"] + (["at", "at"] if nc >= 2 else [])
@@ -561,6 +562,9 @@ def _run_data(case, ctx):
     # --- call
     sat = sut.voltage().saturation
     maxv = _maxv_arg(case, b["r"], npdt)
+    if case.get("layout") == "T":
+        x = np.ascontiguousarray(x.T).T  # what the destriping pipeline passes: the transpose of a (ns, nc) chunk
+        ctx.label("transposed_view")
     r = ctx.call("C16.call", sat, x, maxv, v_per_sec=b["v_per_sec"], fs=case["fs"], proportion=p, mute_window_samples=m)
     if r is ctx.CRASH or not _check_types(ctx, r, ns):
         return
